@@ -50,6 +50,9 @@ def instances(tier):
 
     out = []
     for name, (fn, cost) in catalog.programs(tier).items():
+        if name in catalog.ONLY_FOR and "C29" not in catalog.ONLY_FOR[name]:
+            continue  # (a program that demonstrates a recorded finding of other properties)
+
         def body(E, fn=fn):
             w = catalog.W(E)
             catalog.RecArr.reads.clear()
